@@ -42,6 +42,6 @@ TNext == \/ IsEvent("Data") /\ Data(Ev.p) /\ Matches
 TSpec == TInit /\ [][TNext]_tvars
 
 Flags == << OneResponse, WellFormed, NeverTorn, ThenClosed, GateC04, NoneBeyondRefusal, FirstRejectionWins,
-            AtMostOnce, TimerWhileWaiting, AnsweredWhenQuiet, SegIndep, OnlyValidReachHandler >>
+            AtMostOnce, TimerWhileWaiting, AnsweredWhenQuiet, SegIndep, OnlyValidReachHandler, Progress >>
 Report == PrintT(<<"REACHED", tid, l, Len(Steps) + 1, Flags>>)
 =============================================================================
